@@ -261,8 +261,24 @@ def r6(ctx):
              'path that enters ready or skip, clears the CRC when entering recvRes/sendRes, and clears the pending escape '
              'on every path', minimum=8)
     fb = ctx.fb
-    fn = fb.fn(A.SS)
+    ss = fb.fn(A.SS)
+    fn = ss
     ctx.touch(fn)
+    # the entry actions may have been moved into a helper that setState calls with the new state (extract method): the
+    # function that assigns m_state is the one whose entry actions are examined
+    if not [1 for nid, d, rhs, op, lhs in ss.assignments() if d == 'this.m_state']:
+        cands = []
+        for f in fb.functions:
+            if f.cls == 'ebusd::DirectProtocolHandler' and f.blocks and f.name != A.SS and \
+                    any(d == 'this.m_state' and rhs is not None and f.params and f.key(rhs) == f.params[0].get('name')
+                        for nid, d, rhs, op, lhs in f.assignments()):
+                if any((ss.nodes[c].get('callee') or '') == f.name and ss.nodes[c].get('args') and ss.key(ss.nodes[c]['args'][0]) == ss.P(0)
+                       for c in ss.all('CXXMemberCallExpr')):
+                    cands.append(f)
+        names = sorted(set(f.name for f in cands))
+        if len(names) == 1:
+            fn = cands[0]
+            ctx.touch(fn)
     states, _ = A.bus_states(fb)
     inv = {v: k for k, v in states.items()}
     # events
@@ -286,29 +302,61 @@ def r6(ctx):
         raise AnalysisBroken('C01.R6: expected one assignment to m_state in setState')
     sp = fn.pos(sets[0])
     exitpt = (fn.exit, 0)
+    import re as _re
+    pn = fn.P(0)
+
+    def skipped_for(target, sites):
+        """is there a path from m_state = state to the exit, feasible for state == target, that passes none of the sites?
+        (if-chains and switch statements on the new state are both understood)"""
+        found = []
+
+        def on_elem(user, e, path):
+            if e in sites:
+                return None
+            return user
+
+        def on_edge(user, b, j, dnf):
+            feasible = False
+            for conj in dnf:
+                ok_ = True
+                for a in conj:
+                    k, p = facts.atom_key(fn, a)
+                    m = _re.match(r'^\(%s == #(\d+)\)$' % _re.escape(pn), k)
+                    if m and ((int(m.group(1)) == target) != bool(p)):
+                        ok_ = False
+                feasible = feasible or ok_
+            if not feasible:
+                return None
+            if fn.blocks[b].succs[j] == fn.exit:
+                found.append(b)
+            return user
+        ex = facts.Explorer(fn, on_elem=on_elem, on_edge=on_edge)
+        ex.run(sp[0], sp[1] + 1, 0)
+        return bool(found)
     for what, sites in checks:
-        # every path from m_state = state to the function exit on which state is ready or skip passes one of the sites:
-        # cut the edges where both (state==ready) and (state==skip) are false, then the exit must be unreachable
-        # without passing a site
-        cut = fn.edges_with_atom(rdy, False)
-        cut2 = fn.edges_with_atom(skp, False)
-        # paths that take "ready false" and "skip false" are exempt: remove edges of an atom only if the other was false
-        # before; simple sound approximation: exempt = edges taking the false branch of the LAST of the two tests
-        later = [e for e in cut2 if any(fn.blocks[e[0]].id in fn.reach([fn.blocks[c[0]].succs[c[1]]]) for c in cut)] or cut2
-        reach = fn.reaches_point(sp[0], exitpt, set(sites), start_idx=sp[1] + 1, cut_edges=later)
-        ctx.ob('C01.R6', fn, sets[0], bool(sites) and not reach, 'entry reset %s' % what,
-               'executed on every path entering ready/skip: %s' % (bool(sites) and not reach))
-    esc = assigns('this.m_escape', 0)
-    ok = bool(esc) and not fn.reaches_point(fn.entry, sp, set(esc)) or \
-        (bool(esc) and all(True for _ in [0]) and not any(
-            fn.reaches_point(fn.entry, (fn.block_of(r), 0), set(esc)) for r in fn.all('ReturnStmt')))
-    ctx.ob('C01.R6', fn, esc[0] if esc else fn.body, ok, 'm_escape = 0 on every path', 'pending escape cleared before every return: %s' % ok)
+        # every path from m_state = state to the function exit on which state is ready or skip passes one of the sites
+        ss_ = set(sites)
+        bad = [t for t in ('bs_ready', 'bs_skip') if not ss_ or skipped_for(inv[t], ss_)]
+        ctx.ob('C01.R6', fn, sets[0], not bad, 'entry reset %s' % what,
+               'executed on every path entering ready/skip: %s' % (not bad))
+    # the pending escape is cleared on every path through setState itself (also on the early return for an unchanged
+    # state): by an assignment there, or by a call of a method that clears it on all of its paths
+    esc = set(nid for nid, d, rhs, op, lhs in ss.assignments() if d == 'this.m_escape' and rhs is not None and ss.val(rhs) == 0)
+    for c in ss.all('CXXMemberCallExpr'):
+        cal = [g for g in fb.functions if g.name == ss.nodes[c].get('callee') and g.blocks and g.cls == 'ebusd::DirectProtocolHandler']
+        if cal:
+            g = cal[0]
+            gz = set(nid for nid, d, rhs, op, lhs in g.assignments() if d == 'this.m_escape' and rhs is not None and g.val(rhs) == 0)
+            if gz and not g.reaches_point(g.entry, (g.exit, 0), gz):
+                esc.add(c)
+    ok = bool(esc) and not any(ss.reaches_point(ss.entry, ss.pos(r), esc) for r in ss.all('ReturnStmt'))
+    ctx.ob('C01.R6', ss, sorted(esc)[0] if esc else ss.body, ok, 'm_escape = 0 on every path', 'pending escape cleared before every return: %s' % ok)
     # CRC reset when entering a response part
     rr = '(%s == #%d)' % (fn.P(0), inv['bs_recvRes'])
     sr = '(%s == #%d)' % (fn.P(0), inv['bs_sendRes'])
-    crc0 = assigns('this.m_crc', 0)
-    ok = any(fn.needs_one_of(c, [(rr, True), (sr, True)], frm=sp[0]) for c in crc0)
-    ctx.ob('C01.R6', fn, sets[0], ok, 'm_crc = 0 entering recvRes/sendRes', 'found: %s' % ok)
+    crc0 = set(assigns('this.m_crc', 0))
+    bad = [t for t in ('bs_recvRes', 'bs_sendRes') if not crc0 or skipped_for(inv[t], crc0)]
+    ctx.ob('C01.R6', fn, sets[0], not bad, 'm_crc = 0 entering recvRes/sendRes', 'cleared on every path entering a response part: %s' % (not bad))
 
 
 def r8(ctx):
